@@ -98,6 +98,9 @@ def check(run: Run, ctx) -> None:
     g.run_corr(run, ctx, "vf.corr.resolve", "Resolve (OpenAPISchemaResolver vs Pog.Resolve: required/optional, union members)", quick=0.3, thorough=3.0)
     g.run_oracle(run, ctx, g.Informational(known), "vf.corr.resolve", "resolver oracle (optional = not required; union members distinct and complete)",
                  {"resolve.named_no_stem_no_import": "-hazard", "resolve.string_enum_no_import": "-hazard"}, quick=0.2, thorough=2.0)
+    g.run_corr(run, ctx, "vf.corr.extract", "Extract (inline array-item / enum extraction, model kind vs Pog.Extract)", quick=0.3, thorough=3.0)
+    g.run_oracle(run, ctx, g.Informational(known), "vf.corr.extract", "extraction passes / model kind on the real functions",
+                 {"extract-not-idempotent": "-hazard", "extract-wire-array-flip": "-hazard"}, quick=0.2, thorough=2.0)
     run.cov["rule"] = (run.cov.get("rule") or "") + ("[e2e dataclass level] seeded documents -> generated models imported in a fresh interpreter -> dataclasses.fields + Meta maps compared with "
                        "the document's own/inherited properties (wire key, required, structural kind); distinct by document; non-trivial when >= 2 object schemas")
     cases = []
